@@ -93,6 +93,40 @@ pub fn selfsup(k: usize) -> LargeAdf {
     LargeAdf { written: labels.clone(), labels, conds, shape: "self-supporting" }
 }
 
+pub const LADDER_SIZES: [usize; 10] = [63, 64, 65, 66, 127, 128, 129, 255, 256, 257];
+
+/// ladders with EXACTLY n statements (highest variable index n - 1): statement i follows from statements i+1 and i+2 by
+/// or-not / and / xor in turn, so the grounded propagation needs one round per statement and substitutes the highest
+/// positions first. Variant 0: the last statement is a fact, everything is decided. Variant 1: the last two statements
+/// attack each other (an open pair at the two highest positions), the ladder below hangs off a fact at position n - 3,
+/// and statement 0 also depends on the last statement (three open statements, two stable models).
+pub fn ladder(n: usize, variant: u64) -> LargeAdf {
+    let labels: Vec<String> = (0..n).map(|i| format!("l{:03}", i)).collect();
+    let top = if variant == 0 { n } else { n - 2 }; // the ladder proper occupies 0..top
+    let mut conds: Vec<Fm> = vec![];
+    for i in 0..n {
+        conds.push(if i >= top {
+            Fm::not(Fm::Atom(if i == n - 1 { n - 2 } else { n - 1 }))
+        } else if i == top - 1 {
+            Fm::Top
+        } else if i == top - 2 {
+            Fm::not(Fm::Atom(top - 1))
+        } else {
+            let f = match i % 3 {
+                0 => Fm::bin(1, Fm::Atom(i + 1), Fm::not(Fm::Atom(i + 2))),
+                1 => Fm::bin(0, Fm::Atom(i + 1), Fm::Atom(i + 2)),
+                _ => Fm::bin(4, Fm::Atom(i + 1), Fm::Atom(i + 2)),
+            };
+            if i == 0 && variant != 0 {
+                Fm::bin(4, f, Fm::Atom(n - 1))
+            } else {
+                f
+            }
+        });
+    }
+    LargeAdf { written: labels.clone(), labels, conds, shape: "ladder" }
+}
+
 /// the semantics of an ADF given by formulas, from the definitions
 pub struct Oracle {
     pub n: usize,
